@@ -385,6 +385,55 @@ def oob_family(viol, stats):
             return
 
 
+def slow_writer_family(viol, stats):
+    """One command's write transactions are slow (the delay hook pauses inside them — a loaded disk, a process that is
+    stopped for a moment — so the database's write lock is held for several hundred milliseconds at a time) while other
+    commands, builds and queries, work on the same project.  Waiting is allowed, failing is not: every command exits 0
+    and the results are those of the commands run one after the other."""
+    pr = Project()
+    try:
+        for i in range(1, 7):
+            pr.write("t%d.do" % i, "redo-ifchange src%d\ncat src%d\n" % (i, i))
+            pr.write("src%d" % i, "v%d\n" % i)
+        r0 = sched.run_cmds(pr, [["redo", "t1"]], timeout=60)[0]
+        for delay in ("row.save=350", "txn.firstwrite=400", "row.save=150,txn.commit=300"):
+            slow = ["redo", "-j2", "t2", "t3", "t4"]
+            others = [["redo-ifchange", "t5"], ["redo-ood"], ["redo", "t6"], ["redo-targets"], ["redo-sources"], ["redo-ifchange", "t1"]]
+            for i in range(2, 7):
+                pr.write("src%d" % i, "edit %s %d\n" % (delay, i))
+            import subprocess, time as _t
+            from proj import clean_env
+            ps = [subprocess.Popen(slow, cwd=pr.root, env=clean_env(dict(REDO_VERIF_DELAY=delay)), stdin=subprocess.DEVNULL, stdout=subprocess.PIPE, stderr=subprocess.PIPE, start_new_session=True)]
+            _t.sleep(0.15)
+            for c in others:
+                ps.append(subprocess.Popen(c, cwd=pr.root, env=clean_env(), stdin=subprocess.DEVNULL, stdout=subprocess.PIPE, stderr=subprocess.PIPE, start_new_session=True))
+                _t.sleep(0.1)
+            res = []
+            for c, p_ in zip([slow] + others, ps):
+                try:
+                    o, e = p_.communicate(timeout=120)
+                    res.append((c, p_.returncode, e.decode("utf-8", "replace")))
+                except subprocess.TimeoutExpired:
+                    import signal
+                    os.killpg(p_.pid, signal.SIGKILL)
+                    p_.communicate()
+                    res.append((c, -999, "timeout"))
+            stats["rounds"] += 1
+            stats["commands"] += len(res)
+            stats["slow_writer_rounds"] = stats.get("slow_writer_rounds", 0) + 1
+            bad = [(c, rc, e) for c, rc, e in res if rc != 0]
+            contents = {("t%d" % i): pr.read("t%d" % i) for i in range(2, 7)}
+            wrong = [t for t, v in contents.items() if v != ("edit %s %s\n" % (delay, t[1:])).encode()]
+            if bad or wrong:
+                c, rc, e = bad[0] if bad else (None, 0, "")
+                p = write_replay("C16", "slow-writer", dict(kind="impl-monitor", delay=delay, slow_command=slow, others=others, results=[(c_, rc_, e_[-400:]) for c_, rc_, e_ in res], wrong_contents=wrong))
+                viol.append(Violation("C16", p, "a command with slow write transactions (%s) beside six others: %s" %
+                                      (delay, ("`%s` exited %s: %s" % (" ".join(c), rc, (e.strip().splitlines() or [""])[-1][:200])) if bad else "targets %s do not hold their new content" % wrong)))
+                return
+    finally:
+        pr.destroy()
+
+
 def run(ctx):
     rng = random.Random(ctx["seed"] * 13 + 16)
     viol = ctx.setdefault("violations", [])
@@ -405,6 +454,8 @@ def run(ctx):
         during_command_family(viol, stats)
     if not viol:
         oob_family(viol, stats)
+    if not viol:
+        slow_writer_family(viol, stats)
     for rnd in range(rounds if not viol else 0):
         pr = Project()
         try:
